@@ -8,6 +8,7 @@ from vf.worker import call
 
 PROP = "C16"
 N = 3
+TECHNIQUE = "runtime contracts with relational reference oracle; translate drained by the monitor under sys.monitoring step budgets"
 RULE = ("random nondeterministic FSTs (<=3 states, <=6 transitions, several start/final states, epsilon-input moves "
         "incl. output-free epsilon cycles, start states with incoming and final states with outgoing transitions, "
         "operands sharing state names, the same operand twice, string and int state names); operands whose epsilon "
